@@ -245,7 +245,7 @@ func check(c Case) vk.Verdict {
 		if c.Extractor == "cookie" {
 			sentTok = cookieTok
 		}
-		safe := op.Method == "GET" || op.Method == "HEAD" || op.Method == "OPTIONS"
+		safe := op.Method == "GET" || op.Method == "HEAD" || op.Method == "OPTIONS" || op.Method == "TRACE"
 		hdr := []string{"Host", host}
 		if op.Scheme == "https" {
 			proto := "https"
@@ -512,7 +512,7 @@ func genCase(t *rapid.T) Case {
 			c.Ops = append(c.Ops, Op{Kind: "logout", Client: rapid.IntRange(0, 1).Draw(t, "client"), Cookie: "own", Scheme: "http"})
 		default:
 			op := Op{Kind: "req", Client: rapid.IntRange(0, 1).Draw(t, "client"),
-				Method: rapid.SampledFrom([]string{"GET", "GET", "HEAD", "POST", "POST", "POST", "PUT", "DELETE"}).Draw(t, "method"),
+				Method: rapid.SampledFrom([]string{"GET", "GET", "HEAD", "OPTIONS", "TRACE", "POST", "POST", "POST", "POST", "PUT", "DELETE"}).Draw(t, "method"),
 				Cookie: rapid.SampledFrom([]string{"own", "own", "own", "own", "none", "forged", "other", "dead"}).Draw(t, "cookie"),
 				Token:  rapid.SampledFrom([]string{"same", "same", "same", "same", "none", "forged", "other", "dead", "own", "own"}).Draw(t, "token"),
 				Pick:   rapid.IntRange(0, 5).Draw(t, "pick"), Scheme: rapid.SampledFrom([]string{"http", "https"}).Draw(t, "scheme")}
